@@ -23,9 +23,9 @@ Definition hist_exists := hist_waiter.
 Definition hist_flags := three_clients ++ [EvRequest 1 nameA 0].
 (* F10c: a fourth connection says Hello; the allocation after bus_connection_complete fails *)
 Definition hist_hello := three_clients ++ [EvConnect].
-(* F14.1: the owner releases its name; an allocation of the reply fails; restore_ownership runs *)
+(* former F14.1: the owner releases its name; an allocation of the reply fails; restore_ownership runs *)
 Definition hist_release := three_clients ++ [EvRequest 1 nameA 0].
-(* F14.1: c1 owns A with ALLOW_REPLACEMENT, c2 takes it over with REPLACE_EXISTING *)
+(* former F14.1: c1 owns A with ALLOW_REPLACEMENT, c2 takes it over with REPLACE_EXISTING *)
 Definition hist_replace := three_clients ++ [EvRequest 1 nameA 1].
 
 Ltac not_atomic :=
@@ -56,22 +56,19 @@ Lemma hello_retry_refuted :
                step b' (EvHello 3) = OOk b' [(3, MError EFailed)].
 Proof. do 2 eexists; split; [vm_compute; reflexivity|]. split; vm_compute; reflexivity. Qed.
 
-(* the owner's ReleaseName: the queue is left with a link to a freed BusOwner *)
-Lemma release_primary_refuted :
-  exists b b', run (init_bus 512 512 128) hist_release = Some b /\
-               step_oom 21 b (EvRelease 1 nameA) = OOk b' [(1, MError ENoMemory)] /\
-               lookup (b_services b') (KW nameA) = Some [mkOwner 1 false false false] /\
-               step b' (EvRequest 2 nameA 0) = OStop /\
-               ~ atomic b 1 (step b (EvRelease 1 nameA)) (step_oom 21 b (EvRelease 1 nameA)).
-Proof.
-  do 2 eexists; split; [vm_compute; reflexivity|]. split; [vm_compute; reflexivity|].
-  split; [vm_compute; reflexivity|]. split; [vm_compute; reflexivity|]. not_atomic.
-Qed.
+(* Regression inputs: the former witnesses of finding F14.1 (restore_ownership could not be run;
+   fixed in /repo).  An allocation of the reply fails after bus_service_remove_owner /
+   bus_service_swap_owner succeeded: the hook puts everything back. *)
+Lemma release_primary_restored :
+  exists b, run (init_bus 512 512 128) hist_release = Some b /\
+            step_oom 25 b (EvRelease 1 nameA) = OOk b [(1, MError ENoMemory)] /\
+            step_oom 25 b (EvRelease 1 nameA) <> step b (EvRelease 1 nameA).
+Proof. eexists; split; [vm_compute; reflexivity|]. split; [vm_compute; reflexivity|]. vm_compute; discriminate. Qed.
 
-(* replacing the owner: restore_ownership's assertion stops the daemon *)
-Lemma replace_refuted :
-  exists b, run (init_bus 512 512 128) hist_replace = Some b /\ step_oom 36 b (EvRequest 2 nameA 2) = OStop /\
-            step b (EvRequest 2 nameA 2) <> OStop.
+Lemma replace_restored :
+  exists b, run (init_bus 512 512 128) hist_replace = Some b /\
+            step_oom 40 b (EvRequest 2 nameA 2) = OOk b [(2, MError ENoMemory)] /\
+            step_oom 40 b (EvRequest 2 nameA 2) <> step b (EvRequest 2 nameA 2).
 Proof. eexists; split; [vm_compute; reflexivity|]. split; [vm_compute; reflexivity|]. vm_compute; discriminate. Qed.
 
 Theorem full_statement_refuted : ~ C14_full_statement.
